@@ -32,6 +32,7 @@ struct DumpOpts
     bool diagnostics{true};  // include errors / warnings
     bool diag_as_multiset{false};  // sort diagnostics, drop positions (C05)
     bool builtins{false};    // include the built-in declarations (INT8_MIN ...)
+    bool typechecked_only{false};  // leave out document-wide verdicts (supported methods, flags) that one label can change
     bool twin{false};        // leave out what the two input formats cannot both express (edge action name, LSC type/mode)
     // mask one label: template index, 'L'ocation / 'E'dge, element index, field name
     int mask_templ{-1};
